@@ -172,7 +172,7 @@ THOROUGH = QUICK + ['hcpoct-list', 'rumpled', 'l12', 'skew2', 'fccint', 'tric-ab
 
 def sections(tier):
     S = run.Section
-    return [S('net:' + c, network(c), budget_s=175 if tier == 'quick' else 3000, replayer='net', config=c, maxpaths=400, timeout_ms=20000)
+    return [S('net:' + c, network(c), budget_s=175 if tier == 'quick' else 1200, replayer='net', config=c, maxpaths=400, timeout_ms=20000)
             for c in (QUICK if tier == 'quick' else THOROUGH)]
 
 
